@@ -740,6 +740,12 @@ def r07l(ctx: Context) -> None:
             if has_kind(func, node, name):
                 found = True
                 continue
+            # the local *is* the answer to 'what kind of token is it'
+            alternatives = value.values if isinstance(value, ast.BoolOp) and isinstance(value.op, ast.Or) else [value]
+            kinds = [alternative_kind(a, name) for a in alternatives]
+            if value is not None and all(k is not None and positioned_kind(k) for k in kinds):
+                found = True
+                continue
             _positive, _negative, other = class_facts(func, node, name)
             if any(isinstance(sub, ast.Name) and sub.id == local for test in other for sub in ast.walk(test)):
                 continue  # refined where it already holds a value
